@@ -7,7 +7,7 @@ class FlatMapFuture(MapFuture):
         from ..futures import f_return
 
         self.__flattened = False
-        map_fn = map_fn or f_return
+        map_fn = f_return if map_fn is None else map_fn
         super(FlatMapFuture, self).__init__(delegate, map_fn, error_fn)
 
     def _on_mapped(self, result):
